@@ -34,6 +34,7 @@ CLAIMED = {
  "C19": dict(cat="model_checking", ref="DESIGN.md 5 (C19), 3.6", text="TLC exhaustively checks the EventBus spec (3 listeners, all subscribe/unsubscribe/fire orders and completion orders) with the pinned tree's two deviations as negative controls; schedules are replayed on the real Event and ConfigProp with gated listeners and on live components through the API update path; observations judged by TLC (EventBusTrace, ConfigCellsTrace).", note="3 listeners, <=4 changes; policy/retry switches are read live per request (covered by the proxy replays)", tech="TLA+ spec + TLC exhaustive check + gated replay judged by TLC trace validation"),
  "C20": dict(cat="model_checking", ref="DESIGN.md 5 (C20), 3.7", text="TLC explores login/logout/expiry/request histories of the Sessions spec and checks NoSessionNoEffect / ExpiredStaysExpired; histories are replayed on the real mux + Harden middleware with the real session table and user database, over every registered route; status class, effects and session liveness after every step are judged by TLC trace validation.", note="the SSE stream route is not driven; CSP constant supplied by a build overlay; session expiry by moving ExpiresAt", tech="TLA+ spec + TLC exhaustive check + replay on the real API judged by TLC trace validation"),
  "C11": dict(cat="exploration", ref="DESIGN.md 5 (C11), 3.8", text="TLC checks the check-then-create issuance protocol under concurrency and expiry; generated batch schedules run on the real PrivateCA and every returned certificate is verified with crypto/x509; reuse / replacement judged by TLC trace validation.", note="cryptographic validity is decided by crypto/x509 (trusted)", tech="TLA+ protocol spec + TLC check + real CA runs with x509 oracle, judged by TLC"),
+ "C15": dict(cat="exploration", ref="DESIGN.md 5 (C15), 6", text="Specification-shaped concurrent load (operation mixes of TLC-generated behaviours, free-running) on cache, proxy, event bus, sessions and CA in a -race build; every race reported by the Go race detector is a violation. The lock discipline of the design is model-checked on CacheLocks.", note="oracle: Go race detector; only executed paths are covered", tech="TLC-generated operation mixes as unsynchronised load under the Go race detector (+ TLC check of the lock-level spec)"),
 }
 ENABLED = os.environ.get("VERIF_CLAIMS", "").split(",") if os.environ.get("VERIF_CLAIMS") else None
 
